@@ -333,13 +333,21 @@ def run_check(mod, tier, seed):
         else:
             pool = multiprocessing.get_context("fork").Pool(nproc, maxtasksperchild=None)
             results = pool.imap_unordered(_worker, jobs, chunksize=1)
+        stopped_early = False
         for status, payload in results:
             if status == "error":
                 errors.append(payload)
             else:
                 total.merge(payload)
+                # sensitivity / seeded runs only need the first violation
+                if payload.violations and os.environ.get("VERIF_STOP_ON_VIOLATION"):
+                    stopped_early = True
+                    break
         if nproc > 1 and not os.environ.get("VERIF_INLINE"):
-            pool.close()
+            if stopped_early:
+                pool.terminate()
+            else:
+                pool.close()
             pool.join()
 
     seen = set()
